@@ -40,17 +40,20 @@ DocSpace == [plK1 : BOOLEAN, plK2 : BOOLEAN,                 \* path-level param
              pdepth : 0..2, odepth : 0..2,                   \* parameters inline / $ref / $ref to $ref
              pathRef : BOOLEAN,                              \* the path item of M and O sits behind a $ref
              body : Bodies, rec : BOOLEAN,                   \* request body alternatives; JSON body schema recursive
+             cross : {"none", "fwd", "mirror"},              \* "fwd": path-level (c, query); M declares (c, header) AND (d, query):
+                                                             \*   one shares only the name, the other only the location - nothing is overridden
+                                                             \* "mirror": path-level (c, header) and (d, query); M declares (c, query)
              sec : Secs,                                     \* security scheme kind ("off": global, disabled on M)
              bad : Bads]                                     \* malformed entry in Z
 Base == [plK1 |-> TRUE, plK2 |-> FALSE, olK1 |-> TRUE, olK2 |-> FALSE, olK3 |-> FALSE, orient |-> "pT",
-         pdepth |-> 1, odepth |-> 0, pathRef |-> FALSE, body |-> "two", rec |-> FALSE, sec |-> "hdr", bad |-> "none"]
+         pdepth |-> 1, odepth |-> 0, pathRef |-> FALSE, body |-> "two", rec |-> FALSE, cross |-> "none", sec |-> "hdr", bad |-> "none"]
 B2N(b) == IF b THEN 1 ELSE 0
 Weight(d) == B2N(d.plK1 # Base.plK1) + B2N(d.plK2 # Base.plK2) + B2N(d.olK1 # Base.olK1) + B2N(d.olK2 # Base.olK2)
            + B2N(d.olK3 # Base.olK3) + B2N(d.orient # Base.orient) + B2N(d.pdepth # Base.pdepth)
            + B2N(d.odepth # Base.odepth) + B2N(d.pathRef # Base.pathRef) + B2N(d.body # Base.body)
-           + B2N(d.rec # Base.rec) + B2N(d.sec # Base.sec) + B2N(d.bad # Base.bad)
+           + B2N(d.rec # Base.rec) + B2N(d.sec # Base.sec) + B2N(d.bad # Base.bad) + B2N(d.cross # Base.cross)
 WF(d) == /\ (d.rec => d.body # "none")
-         /\ ((~d.olK1 /\ ~d.olK2 /\ ~d.olK3) => d.odepth = 0)
+         /\ ((~d.olK1 /\ ~d.olK2 /\ ~d.olK3 /\ d.cross = "none") => d.odepth = 0)
 (* all documents within MaxDev single-feature changes of Base (built by changing one feature at a time) *)
 Variants(d) == {[d EXCEPT !.plK1 = b] : b \in BOOLEAN} \cup {[d EXCEPT !.plK2 = b] : b \in BOOLEAN}
           \cup {[d EXCEPT !.olK1 = b] : b \in BOOLEAN} \cup {[d EXCEPT !.olK2 = b] : b \in BOOLEAN}
@@ -58,7 +61,7 @@ Variants(d) == {[d EXCEPT !.plK1 = b] : b \in BOOLEAN} \cup {[d EXCEPT !.plK2 = 
           \cup {[d EXCEPT !.pdepth = n] : n \in 0..2} \cup {[d EXCEPT !.odepth = n] : n \in 0..2}
           \cup {[d EXCEPT !.pathRef = b] : b \in BOOLEAN} \cup {[d EXCEPT !.body = x] : x \in Bodies}
           \cup {[d EXCEPT !.rec = b] : b \in BOOLEAN} \cup {[d EXCEPT !.sec = x] : x \in Secs}
-          \cup {[d EXCEPT !.bad = x] : x \in Bads}
+          \cup {[d EXCEPT !.bad = x] : x \in Bads} \cup {[d EXCEPT !.cross = x] : x \in {"none", "fwd", "mirror"}}
 RECURSIVE Within(_, _)
 Within(S, n) == IF n = 0 THEN S ELSE Within(S \cup UNION {Variants(d) : d \in S}, n - 1)
 Docs == {d \in Within({Base}, MaxDev) : WF(d)}
@@ -72,7 +75,13 @@ Param(n, l, r, g) == [name |-> n, loc |-> l, req |-> r, tag |-> g]
 (* parameters declared on the path item of t / on the operation t itself; tag identifies the definition *)
 PathLevel(d, t) == IF t = "Z" THEN {}
                    ELSE {Param("id", "path", TRUE, 3)} \cup {Param(KName(k), KLoc(k), d.orient = "pT", 1) : k \in PLKeys(d)}
+                        \cup (IF d.cross = "fwd" THEN {Param("c", "query", d.orient = "pT", 6)}
+                              ELSE IF d.cross = "mirror" THEN {Param("c", "header", d.orient = "pT", 6), Param("d", "query", d.orient = "pT", 8)}
+                              ELSE {})
 OpLevel(d, t) == CASE t = "M" -> {Param(KName(k), KLoc(k), d.orient = "oT", 2) : k \in OLKeys(d)}
+                                  \cup (IF d.cross = "fwd" THEN {Param("c", "header", d.orient = "oT", 7), Param("d", "query", d.orient = "oT", 9)}
+                                        ELSE IF d.cross = "mirror" THEN {Param("c", "query", d.orient = "oT", 7)}
+                                        ELSE {})
                    [] t = "Z" -> {Param("q", "query", FALSE, 4)}
                    [] OTHER   -> {}
 (* THE merge rule of the property: path-level parameters overridden by operation-level ones of the same name and location *)
@@ -168,6 +177,11 @@ MergeLaw == \A t \in Targets : LET e == Effective(PathLevel(doc, t), OpLevel(doc
                /\ \A p \in PathLevel(doc, t) : p \in e \/ \E o \in OpLevel(doc, t) : o.name = p.name /\ o.loc = p.loc
                /\ e \subseteq PathLevel(doc, t) \cup OpLevel(doc, t)
 
+(* the override is keyed by the PAIR (name, in): sharing only the name with one operation-level parameter and only the
+   location with another one overrides nothing *)
+PairKeyed == \A t \in Targets : \A p \in PathLevel(doc, t) :
+                (~\E o \in OpLevel(doc, t) : o.name = p.name /\ o.loc = p.loc) => p \in Outcome(doc, t).params \/ Malformed(doc, t)
+
 (* ------------------------------- export --------------------------------- *)
 (* every reachable state is one family element; the expected outcomes depend on the document only and are printed once per
    document (with its first one-access history), every other line carries the descriptor, the history and which accesses are judged *)
@@ -178,6 +192,7 @@ DocId(d) == B2N(d.plK1) + 2 * B2N(d.plK2) + 4 * B2N(d.olK1) + 8 * B2N(d.olK2) + 
           + 2304 * (SIdx(d.body, <<"none", "one", "two", "ref">>) - 1)
           + 9216 * (SIdx(d.sec, <<"none", "hdr", "qry", "basic", "off", "ref">>) - 1)
           + 55296 * (SIdx(d.bad, <<"none", "paramref", "noin", "itemref">>) - 1)
+          + 221184 * (SIdx(d.cross, <<"none", "fwd", "mirror">>) - 1)
 Export == IF hist = <<>> THEN TRUE
           ELSE IF First
           THEN PrintT(<<"CASE", ToJson([id |-> DocId(doc), d |-> doc, w |-> Weight(doc), ser |-> ser, lay |-> lay, h |-> hist,
